@@ -189,6 +189,100 @@ def drive(ctx, strategy, case_fn, max_examples, seed, shrink=True, max_rounds=4,
 
 
 # ---------------------------------------------------------------------------------------------------------
+# code reach of the model layer (line / branch coverage of named library files while a shard runs)
+# ---------------------------------------------------------------------------------------------------------
+class Reach:
+    """with Reach(ctx, ["models.py"]): ...   -> ctx.extra["reach"] = {file: {"lines": [...], "arcs": [...]}}.
+    Measurement only: it never decides anything, and is skipped (recorded as unavailable) when the `coverage`
+    package is not importable in the interpreter that runs the checks."""
+
+    def __init__(self, ctx, files):
+        self.ctx, self.files, self.cov = ctx, files, None
+
+    def __enter__(self):
+        try:
+            import coverage
+            paths = [os.path.join(REPO, "pyvolutionary", f) for f in self.files]
+            self.cov = coverage.Coverage(data_file=None, branch=True, include=paths, config_file=False)
+            self.cov.start()
+        except Exception as e:  # noqa: BLE001
+            self.cov = None
+            self.ctx.extra["reach"] = {"unavailable": f"{type(e).__name__}: {e}"[:200]}
+        return self
+
+    def __exit__(self, *exc):
+        if self.cov is None:
+            return False
+        try:
+            self.cov.stop()
+            data = self.cov.get_data()
+            out = {}
+            for f in data.measured_files():
+                _, statements, _, missing, _ = self.cov.analysis2(f)
+                body = _function_body_lines(f)           # import-time lines ran before the measurement began
+                statements = [ln for ln in statements if ln in body]
+                out[os.path.basename(f)] = {"statements": len(statements),
+                                            "functions": sorted(set(body.values())),
+                                            "lines": sorted(ln for ln in set(statements) - set(missing)),
+                                            "entered": sorted({body[ln] for ln in set(statements) - set(missing)}),
+                                            "arcs": sorted([a, b] for a, b in (data.arcs(f) or []) if a > 0 and b > 0)}
+            self.ctx.extra["reach"] = out
+        except Exception as e:  # noqa: BLE001
+            self.ctx.extra["reach"] = {"unavailable": f"{type(e).__name__}: {e}"[:200]}
+        return False
+
+
+def _function_body_lines(path):
+    """line -> qualified function name, for every line inside a function body of the file"""
+    import ast
+    with open(path) as fh:
+        tree = ast.parse(fh.read())
+    out = {}
+
+    def walk(node, prefix):
+        for ch in ast.iter_child_nodes(node):
+            if isinstance(ch, (ast.FunctionDef, ast.AsyncFunctionDef)):
+                name = f"{prefix}{ch.name}"
+                for st in ch.body:
+                    for ln in range(st.lineno, (st.end_lineno or st.lineno) + 1):
+                        out[ln] = name
+                walk(ch, name + ".")
+            elif isinstance(ch, ast.ClassDef):
+                walk(ch, f"{prefix}{ch.name}.")
+            else:
+                walk(ch, prefix)
+    walk(tree, "")
+    return out
+
+
+def merge_reach(results, coverage):
+    """union of the per-shard reach records -> coverage["code_reach"] (counts + the lines never executed)"""
+    merged, note = {}, None
+    for r in results:
+        reach = (r.get("extra") or {}).get("reach") or {}
+        if "unavailable" in reach:
+            note = reach["unavailable"]
+            continue
+        for f, d in reach.items():
+            m = merged.setdefault(f, {"statements": d["statements"], "lines": set(), "arcs": set(),
+                                      "functions": set(d["functions"]), "entered": set()})
+            m["lines"].update(d["lines"])
+            m["entered"].update(d["entered"])
+            m["arcs"].update(tuple(a) for a in d["arcs"])
+    if not merged:
+        coverage["code_reach"] = {"unavailable": note or "no data"}
+        return
+    coverage["code_reach"] = {f: {"function_body_statements": m["statements"], "lines_executed": len(m["lines"]),
+                                  "branch_arcs_executed": len(m["arcs"]),
+                                  "functions_entered": len(m["entered"]), "functions": len(m["functions"]),
+                                  "functions_never_entered": sorted(m["functions"] - m["entered"])}
+                              for f, m in sorted(merged.items())}
+    coverage["code_reach_note"] = ("measured with coverage.py while the shards ran (function bodies only: module and "
+                                   "class level lines run at import, before the measurement); reach is reported, it "
+                                   "decides nothing")
+
+
+# ---------------------------------------------------------------------------------------------------------
 # main
 # ---------------------------------------------------------------------------------------------------------
 def _shard_entry(module_name, shard, tier, seed):
